@@ -687,7 +687,7 @@ resilience:
 - name: retry
   kind: Retry
   maxAttempts: 2
-  waitDuration: 1ms
+  waitDuration: 20ms
   backOffPolicy: exponential
   randomizationFactor: 0.5
 - name: breaker
